@@ -1,7 +1,7 @@
 (* C11 - line-search steps are feasible, within budget and strictly downhill.
    Restates lemmas about [line_search] of the driver model (coq/Model/Driver.v, hand-written from linesearch.py). *)
 From Coq Require Import List ZArith Bool String Lia Floats.PrimFloat.
-From LBFGSB Require Generated.MaxStep Generated.Base Model.NumpyOps.
+From LBFGSB Require Generated.MaxStep Generated.Base Generated.MainLoop Generated.StopTests Model.NumpyOps.
 From LBFGSB Require Import Base.Res Base.Hoare Base.FloatOrd Model.SF Model.FloatVec Model.Driver Generated.Consts
   Proofs.SFProofs Proofs.SFPoints Proofs.DriverBox Proofs.DriverReport Proofs.DriverValues Proofs.DriverLineSearch
   Model.Dcsrch Model.DriverDcs Proofs.DcsrchProofs Proofs.DriverDcsrch Proofs.FloatZero Proofs.DriverStepPositive.
@@ -120,6 +120,13 @@ Theorem C11_trial_point_sites_from_source :
   LBFGSB.Generated.Base.projection_sites_src =
   ["main: np.clip(x + steplength * d, lb, ub)"; "linesearch: np.clip(x0 + alpha * d, lb, ub)";
    "linesearch: np.clip(x0 + steplength * d, lb, ub)"; "linesearch: np.clip(x0 + alpha * d, lb, ub)"]%string.
+Proof. reflexivity. Qed.
+
+(* the first trial step of the model IS the first-step rule of line_search, translated from its source on every run
+   (1 / sqrt(d.d) capped by max_steplength at iteration 0 of a problem that is not fully boxed, 1 otherwise) *)
+Theorem C11_first_step_from_source : forall (K : kern) (c : cfg) (d : vec) (nit : Z) (stpmax : float),
+  LBFGSB.Generated.MainLoop.first_step (vdot K) (nit =? 0) (is_boxed c) d stpmax =
+  (if (nit =? 0) && negb (is_boxed c) then StopTests.pymin (div fone (sqrt (vdot K d d))) stpmax else fone).
 Proof. reflexivity. Qed.
 
 (* the first-step rule, the iteration-0 cap and the arguments handed to DCSRCH are those of the source *)
